@@ -4,9 +4,11 @@
 # related modules still pass (filter taken from existing_filter.txt in the seeded dir, default none).
 # Writes <seeded-dir>/confirm.log ; prints one summary line. Sequential use (flock), shared target dir.
 set -u
-D="$(cd "$1" && pwd)"; exec 9>/tmp/confirm.lock; flock 9
-W=/tmp/confirm/repo; export RUSTUP_TOOLCHAIN=1.96.0 CARGO_NET_OFFLINE=true CARGO_TARGET_DIR=/tmp/confirm-target
-git -C /repo worktree remove --force $W 2>/dev/null; git -C /repo worktree prune; mkdir -p /tmp/confirm
+D="$(cd "$1" && pwd)"; S="${CONFIRM_SLOT:-}"; exec 9>/tmp/confirm$S.lock; flock 9
+# already confirmed by another slot while we waited for the lock
+if [ -z "${CONFIRM_FORCE:-}" ] && grep -q "^RESULT" "$D/confirm.log" 2>/dev/null; then echo "CONFIRM $(basename $D) already done"; exit 0; fi
+W=/tmp/confirm$S/repo; export RUSTUP_TOOLCHAIN=1.96.0 CARGO_NET_OFFLINE=true CARGO_TARGET_DIR=/tmp/confirm$S-target
+git -C /repo worktree remove --force $W 2>/dev/null; git -C /repo worktree prune; mkdir -p /tmp/confirm$S
 git -C /repo worktree add -q --detach $W HEAD || exit 2
 cd $W
 cmd=$(grep -E "cargo test" "$D/demo_cmd.txt" | tail -1 | sed -E 's/.*(cargo test.*)$/\1/' | sed -E 's/&&.*//')
